@@ -128,6 +128,7 @@ const keyOpenFailure = "FileLogger:rotation/after-open-failure"
 const keyNewborn = "FileLogger:rotation/date-changed-right-after-creation"
 
 func fineScenario(c *vlib.Ctx, section string, i int, r *vlib.Rand, construct, faulty bool) {
+	curSec = section
 	day0 := randDay(r)
 	mid := (day0 + 1) * dayMs
 	d := drawBeforeMidnight(r)
